@@ -13,6 +13,7 @@ import os
 import shutil
 import subprocess
 import tempfile
+import tokenize
 
 import autoprog
 from common import run_worker, lean_driver, real_env, PY, SCRATCH_ROOT
@@ -75,14 +76,27 @@ def all_defs_decorated(new):
     return None
 
 
-def behave(build, prog, cfg):
+ENCODINGS = [None, None, 'latin-1', 'utf-8-sig']
+
+
+def encoded(text, enc):
+    """the program's own file in another source encoding python accepts (PEP 263 declaration / UTF-8 with BOM), with a non-ASCII literal"""
+    tail = '\nprint("caf\u00e9 \u00fc\u00df")\n'
+    if enc == 'latin-1':
+        return ('# -*- coding: latin-1 -*-\n' + text + tail).encode('latin-1')
+    if enc == 'utf-8-sig':
+        return (text + tail).encode('utf-8-sig')
+    return text.encode('utf-8')
+
+
+def behave(build, prog, cfg, enc=None):
     d = tempfile.mkdtemp(prefix='c08b-', dir=SCRATCH_ROOT)
     try:
         for rel, text in prog['files'].items():
             p = os.path.join(d, rel)
             os.makedirs(os.path.dirname(p), exist_ok=True)
-            with open(p, 'w') as fh:
-                fh.write(text)
+            with open(p, 'wb') as fh:
+                fh.write(encoded(text, enc if rel == prog['script'] else None))
         e = real_env(build)
         pm = [os.path.join(d, x[5:]) if x.startswith('PATH:') else x for x in cfg['prof_mod']]
         popts = []
@@ -110,7 +124,8 @@ def behave(build, prog, cfg):
         for k in keys or []:
             fn, first, name = k[0], k[1], k[2]
             if os.path.exists(fn) and os.path.realpath(fn).startswith(os.path.realpath(d)):
-                src = open(fn).read().split('\n')
+                with tokenize.open(fn) as fh:
+                    src = fh.read().split('\n')
                 # co_firstlineno is the first decorator line (if any); walk down to the def
                 j = first - 1
                 while j < len(src) and src[j].lstrip().startswith('@'):
@@ -173,6 +188,8 @@ def run(ctx):
         why = None
         if r['error']:
             why = {'rewritten tree does not compile / rewriting failed': r['error']}
+        elif not r.get('read_ok', True):
+            why = {'the tree the profiler starts from is not the file that is on disk now': {'profiler_read': r['orig'][:60]}}
         else:
             s = strip_added(r['new'], r['orig'])
             if s:
@@ -202,8 +219,13 @@ def run(ctx):
     nb = 40 if ctx.quick else 600
     sample = ctx.rng.fork('beh').sample([c for c in cases if c['prof_mod']], nb)
     with cf.ThreadPoolExecutor(max_workers=12) as ex:
-        bres = list(ex.map(lambda c: behave(build, c['prog'], c), sample))
-    for c, b in zip(sample, bres):
+        # first the past failure F-C08e (the script itself selected / a helper selected, in both non-default source encodings), then the sample
+        c0 = next(c for c in cases if c['prof_mod'] and not c['module'] and c['prof_mod'][0].startswith('PATH:'))
+        c1 = next(c for c in cases if c['prof_mod'] == ['helper'] and not c['module'])
+        runs = [(c0, 'latin-1'), (c0, 'utf-8-sig'), (c1, 'latin-1'), (c1, 'utf-8-sig')] + [(c, ENCODINGS[i % len(ENCODINGS)]) for i, c in enumerate(sample)]
+        bres = list(ex.map(lambda ce: behave(build, ce[0]['prog'], ce[0], ce[1]), runs))
+    sample = [c for c, _e in runs]
+    for bi, (c, b) in enumerate(zip(sample, bres)):
         if b['py']['rc'] != 0:
             ctx.broken.append(('harness', 'generated program fails under plain python: ' + b['py']['err']))
             continue
@@ -219,12 +241,13 @@ def run(ctx):
         if why:
             ctx.fail('the auto-profiled program does not behave like the original', {'finding_class': None, 'script': c['script'], 'prof_mod': c['prof_mod'],
                                                                                     'prof_imports': c['prof_imports'], 'module': c['prog']['module'],
+                                                                                    'source_encoding': runs[bi][1] or 'utf-8',
                                                                                     'source': c['files'][c['script']], 'difference': why})
     ctx.coverage.update({
         'evaluations': len(cases) + len(sample), 'distinct_nontrivial': len(nontrivial),
         'rule': 'generated scripts / package modules (plain, nested, generator with return + yield from, async, class with static/class/property methods, lru_cache, '
                 'keyword-only signatures, lambda, already-decorated, in-function / try / if imports; 17 import styles incl. star, aliased, dotted, deep from-imports; 0-2 '
-                '__future__ lines; relative imports in module mode) x selections (script itself, modules, packages, none) x --prof-imports; a sample is also run for real '
+                '__future__ lines; relative imports in module mode; the program file in UTF-8, latin-1 with a PEP 263 declaration, UTF-8 with BOM) x selections (script itself, modules, packages, none) x --prof-imports; a sample is also run for real '
                 'under python and kernprof; non-trivial = something was selected',
         'traces_validated_against_impl': len(cases) - kdiff, 'correspondence_disagreements': kdiff, 'distribution': dist, 'behavioural_runs': len(sample)})
     ctx.coverage['samples'].append({'prof_mod': cases[-1]['prof_mod'], 'prof_imports': cases[-1]['prof_imports'], 'source': cases[-1]['files'][cases[-1]['script']][:1500],
